@@ -9,11 +9,12 @@ def run(tier):
         "BV-STR: strings are byte vectors of bounded capacity with symbolic length (QF_BV); strings.Split / SplitN / ReplaceAll / Index / Count / HasPrefix and fmt's %s %v %d are exact encodings for the forms used (Split: up to 3 separators, unwinding assertion beyond)",
         "one configuration string symbolic per query (SKI, identifier, brand, model, type, serial in turn), all 256 byte values, the others fixed; UTF-8 validity is the exact utf8.ValidString automaton",
         "fake api.MdnsProviderInterface captures (name, port, txt); the browser side is a second MdnsManager fed with parseTxt of the captured record",
+        "history part (H_C16_Seq): every sequence of up to N operations from {announce, unannounce, set auto-accept true/false} with a fixed configuration; after each operation the record live at the provider must read back as the current auto-accept flag and the configured data",
         "QR oracle: the text must equal the reference printer refQR (harness/mdns/c16.go), which strips ';' from every value and therefore parses back unambiguously under the SHIP;KEY:value;..ENDSHIP; grammar",
     ]
     c.bounds = {"truncation_input_len_max": 35, "roundtrip_string_len_max": 6, "qr_string_len_max": 6, "categories_max": 2,
-                "category_value_max": 99, "port": "0..65535", "loop_unwind": 80}
-    res, meta = lib.run_engine("mdns", ["H_C16_Shorten", "H_C16_Txt", "H_C16_Cats", "H_C16_QR"], sched="seq", solver="z3-new", maxstr=n,
+                "category_value_max": 99, "announce_unannounce_autoaccept_history_len": 5 if tier == "thorough" else 4, "port": "0..65535", "loop_unwind": 80}
+    res, meta = lib.run_engine("mdns", ["H_C16_Shorten", "H_C16_Txt", "H_C16_Cats", "H_C16_QR", "H_C16_Seq4" if tier != "thorough" else "H_C16_Seq5"], sched="seq", solver="z3-new", maxstr=n,
                                workers=8, timeout_ms=300000, loop=80, extra=["-bvstr"])
     c.add_run("mdns-strings", res, meta)
     for e, r in (res or {}).items():
